@@ -515,6 +515,9 @@ class Obs:
     def pool_victims(self, pool):
         return self.failed.get(pool.pid, [])
 
+    def was_killed(self, c, pool):
+        return any(x is c for x in self.failed.get(pool.pid, []))
+
     def suspend_ticks(self, c):
         rc = self.real.get(c.label)
         d = getattr(rc, "suspend_ticks", None)
